@@ -116,7 +116,7 @@ Url::Url(const String& url)
 	{
 		hoststart++;
 		hostend = url.indexOf(']', hoststart);
-		if (hostend < 0)
+		if (hostend < 0 || hostend > pathstart) // no ']', or only after the path has begun
 		{
 			*this = Url();
 			return;
